@@ -51,6 +51,11 @@ def roundtrip(ctx, L, what, data, obs, payload, mode):
         cursor += w
     if cursor != len(data) or b"".join(chunks) != data:
         ctx.problem(f"C02:{mode}:total", f"re-encoding covers {cursor} of {len(data)} bytes; input {data.hex()} as {what}", payload)
+        return
+    # the same events streamed from a one-shot iterator (what `convert --out binary` does) re-encode to the same bytes
+    streamed = ctx.guard(lambda: b"".join(Binary.unmarshal(e for e in obs.raw)), f"C02:{mode}:unmarshal-iterator", payload)
+    if streamed is not None and streamed != data:
+        ctx.problem(f"C02:{mode}:iterator", f"re-encoding the events from a one-shot iterator gives {streamed.hex()[:200]}, from a list {data.hex()[:200]}; {what}", payload)
 
 
 def check_case(ctx, L, case, faults_map=None):
